@@ -129,6 +129,8 @@ SemAlt(t) ==
             IF IsDecimalText(b) /\ At(b, 1) \in {"+", "-"} THEN SemDelta(DecimalFix(b))
             ELSE IF b \in XlNames THEN Tab(NameComp(b))
             ELSE IF XlAcc(b) # "" THEN Tab(NameComp(XlAcc(b))) ELSE Unres
+      [] p \in {"r", "resid", "g", "gno"} ->      \* vocabularies not bundled: only their prefixed signed numbers mean something
+            IF IsDecimalText(b) /\ At(b, 1) \in {"+", "-"} THEN SemDelta(DecimalFix(b)) ELSE Unres
       [] OTHER -> (* bare name: Unimod first, then PSI-MOD (names containing ':' such as Label:13C(6) are bare names) *)
             IF t \in UnimodNames \cup PsiNames THEN Tab(NameComp(t)) ELSE Unres
 
